@@ -387,6 +387,9 @@ def bits_to_target(bits):
     coefficient = little_endian_to_int(bits[:-1])
     # the formula is:
     # coefficient * 256**(exponent-3)
+    if exponent < 3:
+        # the low bytes of the coefficient are shifted out (keeps it an integer)
+        return coefficient >> (8 * (3 - exponent))
     return coefficient * 256 ** (exponent - 3)
 
 
